@@ -86,11 +86,13 @@ func (r *RIBModule) register(interest *spec.Interest, pitToken []byte, inFace ui
 	faceID := inFace
 	if params.FaceId != nil && *params.FaceId != 0 {
 		faceID = *params.FaceId
-		if face.FaceTable.Get(faceID) == nil {
-			response = makeControlResponse(410, "Face does not exist", nil)
-			r.manager.sendResponse(response, interest, pitToken, inFace)
-			return
-		}
+	}
+	// The requesting face is checked like an explicitly named one: it may have been
+	// removed while its command was queued for the management thread.
+	if face.FaceTable.Get(faceID) == nil {
+		response = makeControlResponse(410, "Face does not exist", nil)
+		r.manager.sendResponse(response, interest, pitToken, inFace)
+		return
 	}
 
 	origin := table.RouteOriginApp
@@ -121,6 +123,17 @@ func (r *RIBModule) register(interest *spec.Interest, pitToken []byte, inFace ui
 		Flags:            flags,
 		ExpirationPeriod: expirationPeriod,
 	})
+	// Faces are removed from their own goroutines (face.Table.Remove deletes the face from
+	// the face table and then cleans its routes up). If the face disappeared after the
+	// check above, that clean-up may have run before the route was added and will not run
+	// again (face ids are not reused): withdraw the route here. If the face is still in the
+	// table now, its removal comes after the insertion and takes the route with it.
+	if face.FaceTable.Get(faceID) == nil {
+		table.Rib.CleanUpFace(faceID)
+		response = makeControlResponse(410, "Face does not exist", nil)
+		r.manager.sendResponse(response, interest, pitToken, inFace)
+		return
+	}
 	if expirationPeriod != nil {
 		core.LogInfo(r, "Created route for Prefix=", params.Name, ", FaceID=", faceID, ", Origin=", origin,
 			", Cost=", cost, ", Flags=0x", strconv.FormatUint(flags, 16), ", ExpirationPeriod=", expirationPeriod)
